@@ -272,6 +272,30 @@ func runC12(r *Run) {
 		ch := int(in.Common.FriParams.Config.CapHeight)
 		arities := in.Common.FriParams.ReductionArityBits
 		perRound := 4 + len(arities)
+		if len(idxBits) == 64*k && len(calls) < perRound*k {
+			// fewer Merkle checks than plonky2's query round has: find the opening that is not checked by
+			// tampering with the first sibling of each opening of round 0 on the real circuit
+			var paths []string
+			for j := 0; j < 4; j++ {
+				paths = append(paths, fmt.Sprintf(".Proof.OpeningProof.QueryRoundProofs[0].InitialTreesProof.EvalsProofs[%d].MerkleProof.Siblings[0]", j))
+			}
+			for s := range arities {
+				paths = append(paths, fmt.Sprintf(".Proof.OpeningProof.QueryRoundProofs[0].Steps[%d].MerkleProof.Siblings[0]", s))
+			}
+			found := false
+			for _, pth := range paths {
+				cr := &circuitReplay{Kind: "circuit", Wrapper: "verifier", Instance: in.Base, K: in.K, Expect: "accepted", Edits: []edit{{Path: pth, Add: "1"}}}
+				if acc, _ := runCircuitReplay(cr, r.Repo); acc {
+					r.addViolationWithReplay("Merkle opening not verified: "+stripIdx(pth), fmt.Sprintf("%s: the query round performs %d Merkle checks, plonky2's has %d; the opening whose path contains %s is not checked against its cap: the valid proof with that sibling + 1 is still accepted", in.Name, len(calls)/k, perRound, pth), toMap(cr), "real circuit (test.IsSolved) accepts the proof with a tampered Merkle path")
+					found = true
+					break
+				}
+			}
+			if !found {
+				r.Infra("%s: expected %d Merkle checks per round, found %d, but no tampered sibling is accepted", in.Name, perRound, len(calls)/k)
+			}
+			continue
+		}
 		if len(idxBits) != 64*k || len(calls) != perRound*k {
 			r.Infra("%s: expected %d index bits and %d Merkle checks, found %d and %d", in.Name, 64*k, perRound*k, len(idxBits), len(calls))
 			continue
